@@ -60,7 +60,7 @@ func H_C15_Wrkchain() {
 	rt.Reach("imported")
 	hi2, herr := k2.GetHighestWrkChainID(e2.Ctx)
 	rt.Assert("C09+C15.wrk-id-counter-restored", rt.And(herr == nil, rt.And(hi2 == pre.Highest, rt.And(pre.ID < hi2, pre.ID2 < hi2))))
-	rt.Assert("C15.wrk-state-identical-after-import", we.MS.Store(wrktypes.StoreKey).SameAs(e2.MS.Store(wrktypes.StoreKey)))
+	rt.Assert("C09+C15.wrk-state-identical-after-import", we.MS.Store(wrktypes.StoreKey).SameAs(e2.MS.Store(wrktypes.StoreKey)))
 	g2 := wrkchain.ExportGenesis(e2.Ctx, k2)
 	rt.Assert("C15.wrk-re-export-identical", rt.ProtoEqual(g, g2))
 }
@@ -94,7 +94,7 @@ func H_C15_Beacon() {
 	rt.Reach("imported")
 	hi2, herr := k2.GetHighestBeaconID(e2.Ctx)
 	rt.Assert("C09+C15.beacon-id-counter-restored", rt.And(herr == nil, rt.And(hi2 == pre.Highest, rt.And(pre.ID < hi2, pre.ID2 < hi2))))
-	rt.Assert("C15.beacon-state-identical-after-import", be.MS.Store(beacontypes.StoreKey).SameAs(e2.MS.Store(beacontypes.StoreKey)))
+	rt.Assert("C09+C15.beacon-state-identical-after-import", be.MS.Store(beacontypes.StoreKey).SameAs(e2.MS.Store(beacontypes.StoreKey)))
 	g2 := beacon.ExportGenesis(e2.Ctx, k2)
 	rt.Assert("C15.beacon-re-export-identical", rt.ProtoEqual(g, g2))
 }
